@@ -31,6 +31,8 @@ func runOne(spec string, sch *drivers.Schedule) []drivers.TraceLine {
 		return drivers.NewCoreRun(sch).Run()
 	case "health":
 		return drivers.NewHealthRun(sch).Run()
+	case "async":
+		return drivers.NewAsyncRun(sch).Run()
 	}
 	fmt.Fprintln(os.Stderr, "unknown spec", spec)
 	os.Exit(2)
